@@ -1,5 +1,28 @@
+//! sdk-mon: SDK vs program differential monitors (C15, C16, C31, C40, C42, C43).
+
+mod c15;
+mod c16;
+mod c31;
+mod c40;
+mod c42;
+mod c43;
+mod layout;
+mod util;
+
 fn main() {
     let args = vcommon::Args::parse();
-    eprintln!("no monitor for {}", args.id);
-    std::process::exit(2);
+    util::install_stubs();
+    let code = match args.id.as_str() {
+        "C15" => c15::run(&args),
+        "C16" => c16::run(&args),
+        "C31" => c31::run(&args),
+        "C40" => c40::run(&args),
+        "C42" => c42::run(&args),
+        "C43" => c43::run(&args),
+        other => {
+            eprintln!("no monitor for {other}");
+            2
+        }
+    };
+    std::process::exit(code);
 }
